@@ -272,7 +272,7 @@ fn build_zone(cyc: &Cycle, times: &[i64], idx: &[usize], leap_variant: u8, rule_
 /// zones with more local time types than a TZif file can carry (the constructors do not limit them): K types with pairwise
 /// different offsets, transitions that visit every type, and neighbours whose indices agree modulo 256 / 128 / 64
 fn sweep_many_types(cyc: &Cycle, rec: &Recorder, thorough: bool) -> Tally {
-    let ks: &[usize] = if thorough { &[255, 256, 257, 258, 300, 511, 512, 513, 600, 1025] } else { &[256, 257, 300, 513] };
+    let ks: &[usize] = if thorough { &[255, 256, 257, 258, 300, 511, 512, 513, 600, 1025, 4097, 65537] } else { &[256, 257, 300, 513] };
     let mut work = vec![];
     for &k in ks {
         for stride in [1usize, 255, 256, 257, 128, 64] {
@@ -310,7 +310,7 @@ fn sweep_many_types(cyc: &Cycle, rec: &Recorder, thorough: bool) -> Tally {
 /// every +-1 walk of the cumulative correction (length 1..=L) with records 28 days apart, crossed with transitions that sit
 /// on a record's time, one second before or one second after it (on the count scale), every assignment of the three positions
 fn sweep_leap_walks(cyc: &Cycle, rec: &Recorder, thorough: bool) -> Tally {
-    let max_len: u32 = if thorough { 6 } else { 4 };
+    let max_len: u32 = if thorough { 7 } else { 4 };
     let mut work = vec![];
     for len in 1..=max_len {
         for signs in 0..(1u32 << len) {
@@ -365,8 +365,8 @@ pub fn run(args: &Args) -> i32 {
     let cyc = Cycle::build();
     let thorough = args.thorough();
     let us = us_rule(&cyc);
-    let max_n: usize = if thorough { 300 } else { 64 };
-    let all_seq_n: usize = if thorough { 9 } else { 6 };
+    let max_n: usize = if thorough { 1500 } else { 64 };
+    let all_seq_n: usize = if thorough { 10 } else { 6 };
     // work list: (n, layout, pattern code) ; pattern code < 3 => i mod (code+1) ; otherwise explicit base-3 sequence number
     let mut work: Vec<(usize, u8, u64, bool)> = vec![];
     for n in 0..=max_n {
@@ -460,7 +460,7 @@ pub fn run(args: &Args) -> i32 {
     rec.sub("table", json!({"shapes": work.len(), "zones": total.zones, "zones_refused_as_model_predicts": total.rejected, "lookups": total.evals, "max_table_len": max_n, "all_index_sequences_up_to_len": all_seq_n}));
     rec.add(total.evals, total.nontrivial);
     rec.digest("table", total.digest);
-    rec.set_rule("zones: table length 0..=N x 3 time layouts (spaced, adjacent, i64 extremes) x type-index patterns (i mod k; all 3^n sequences for small n) x 7 leap tables x {no rule, fixed rule, DST rule}; probes: every transition -3..+3, every leap record -2..+2, 0, i64 extremes; oracle: linear-scan zone model; DateTime::from_timespec fields vs model calendar; owned == borrowed. non-trivial = probes whose expected answer differs from that of the instant one second earlier");
+    rec.set_rule("zones: table length 0..=N x 3 time layouts (spaced, adjacent, i64 extremes) x type-index patterns (i mod k; all 3^n sequences for small n) x 7 leap tables x {no rule, fixed rule, DST rule}; zones with 256..513 (65537) local time types; every +-1 walk of the leap correction of length <= 4 (7) x transitions at record -1/0/+1; probes: every transition -3..+3, every leap record -2..+2, 0, i64 extremes; oracle: linear-scan zone model; DateTime::from_timespec fields vs model calendar; owned == borrowed. non-trivial = probes whose expected answer differs from that of the instant one second earlier");
     rec.set_exhaustive(true);
     rec.outcome("type");
     rec.outcome("NoAvailableLocalTimeType");
